@@ -125,10 +125,12 @@ def run_fuzz(case, res):
             for sid, e in errors:
                 res.violation("submit-raised/%s" % type(e).__name__, "%s: submit of %d raised %r" % (label, sid, e))
             ok_all = True
+            deadline = instr._real_monotonic() + 20.0  # shared by all submissions of this execution
             for sid in range(nsub):
                 if futs[sid] is None:
                     continue
-                ok_all &= bool(check_submission(res, label, spec, scripts[sid], fns[sid], futs[sid], args[sid]))
+                ok_all &= bool(check_submission(res, label, spec, scripts[sid], fns[sid], futs[sid], args[sid],
+                                                timeout=max(0.0, deadline - instr._real_monotonic())))
             TR.set_fuzz(0.0)
             res.execs += 1
             check_common(res)
